@@ -324,6 +324,7 @@ def units(tier):
     ts = entry_terms()
     for i in range(0, len(ts), 40):
         us.append({"kind": "entry", "from": i, "to": i + 40})
+    us.append({"kind": "entry-big"})
     return us
 
 
@@ -679,6 +680,63 @@ def same_res(a, b):
     return a[1:] == b[1:]
 
 
+def run_entry_big(r):
+    """entry points agree on large inputs too (files of 2**20 bytes and more; positions behind 2**32 reached through a window
+    stream that reports absolute offsets), including seeks beyond the end"""
+    import construct as C
+    from .. import scale
+    this = C.this
+    tmpdir = tempfile.mkdtemp(prefix="verif-c17big-", dir="/var/tmp")
+    try:
+        for n in scale.BIG[:2] + [70000]:
+            data = scale.payload(n, "ramp")
+            shapes = [
+                ("pointer-beyond-eof", C.Struct("p" / C.Pointer(this._params.off, C.GreedyRange(C.Int32ub)), "first" / C.Bytes(8)), dict(off=n + 10)),
+                ("pointer-near-end", C.Struct("p" / C.Pointer(this._params.off, C.GreedyRange(C.Int32ub)), "first" / C.Bytes(8)), dict(off=n - 7)),
+                ("seek-beyond-eof", C.Struct("a" / C.Bytes(16), C.Seek(this._params.off), "r" / C.GreedyBytes), dict(off=n + 5)),
+                ("end-relative", C.Struct("h" / C.Byte, "tail" / C.Pointer(-4, C.Bytes(4)), "body" / C.OffsettedEnd(-8, C.GreedyBytes)), dict(off=0)),
+                ("padding-then-byte", C.Struct(C.Padding(n - 1), "b" / C.Byte), dict(off=0)),
+                ("prefixed-region", C.Struct("r" / C.Prefixed(C.Int32ub, C.Struct("x" / C.Bytes(5), "rest" / C.GreedyBytes))), dict(off=0)),
+                ("lazy", C.Struct("lz" / C.LazyArray(n // 4, C.Int32ub), "t" / C.GreedyBytes), dict(off=0)),
+            ]
+            for name, d, kw in shapes:
+                x = data if name != "prefixed-region" else (n - 4).to_bytes(4, "big") + data[4:]
+                def summary(v):
+                    v = T.norm(v)
+                    if name == "lazy":
+                        return (v["lz"][0], v["lz"][-1], len(v["lz"]), v["t"])
+                    return repr(v)[:200] + str(hash(repr(v)))
+                base = do_parse(lambda: summary(d.parse(x, **kw)))
+                fn = os.path.join(tmpdir, "big.bin")
+                with open(fn, "wb") as f:
+                    f.write(x)
+                variants = {"bytearray": lambda: summary(d.parse(bytearray(x), **kw)), "memoryview": lambda: summary(d.parse(memoryview(x), **kw)),
+                            "parse_stream": lambda: summary(d.parse_stream(io.BytesIO(x), **kw)), "parse_file": lambda: summary(d.parse_file(fn, **kw))}
+                if name == "lazy":
+                    del variants["parse_file"]          # parse_file closes the file before a lazy result can be read (by design)
+                    def viaopen():
+                        with open(fn, "rb") as fh:
+                            return summary(d.parse_stream(fh, **kw))
+                    variants["parse_stream(open file)"] = viaopen
+                if name in ("padding-then-byte", "prefixed-region", "lazy"):
+                    # a window that reports positions behind 2**32 and 2**63 (no 4 GiB of data needed)
+                    for off in (2 ** 32 + 5, 2 ** 63 + 1):
+                        variants["window@%d" % off] = lambda off=off: summary(d.parse_stream(C.BytesIOWithOffsets(x, None, off), **kw))
+                for vn, f in variants.items():
+                    r.states += 1
+                    got = do_parse(f)
+                    r.case(nontrivial=True, outcome="entry-big", transitions=2, validated=1)
+                    if got != base:
+                        r.violation("C17/entry-point-differs/%s/big:%s" % (vn.split("@")[0], name), {"entrybig": [name, n, vn]},
+                                    "%s on %d bytes: parse(bytes) gives %r, via %s %r" % (name, n, base, vn, got))
+                os.unlink(fn)
+    finally:
+        for f in os.listdir(tmpdir):
+            os.unlink(os.path.join(tmpdir, f))
+        os.rmdir(tmpdir)
+    r.sample({"entry_big_sizes": scale.BIG[:2] + [70000], "shapes": 7})
+
+
 def fresh_result(name):
     """the call in a brand-new interpreter (nothing has run before it in that process)"""
     import subprocess
@@ -716,6 +774,9 @@ def run_unit(unit, tier):
     if k == "fresh":
         run_fresh(unit, tier, r)
         return r
+    if k == "entry-big":
+        run_entry_big(r)
+        return r
     if k == "history":
         r.export_states = True
         run_history(unit, tier, r)
@@ -728,6 +789,9 @@ def run_unit(unit, tier):
 
 def replay(case):
     r = UnitResult()
+    if "entrybig" in case:
+        run_entry_big(r)
+        return [v for v in r.violations if v["case"]["entrybig"][0] == case["entrybig"][0]]
     if "repeat" in case:
         run_history({"first": [case["repeat"]]}, "quick", r)
         return [v for v in r.violations if "repeat" in v["case"]]
